@@ -321,6 +321,34 @@ func c01One(c *vk.Ctx, prop string, e reg.Entry, idx []int, id string) uint64 {
 						}
 					}
 				}
+				// (c) into an explicit inferring target (proto.AutoResult), twice: the ColAuto itself is
+				// the bound column, so everything the inferred column needs (state prefix, preparation)
+				// has to pass through it; then the same ColAuto as an input column
+				at := proto.Results{proto.AutoResult("col")}
+				for pass := 0; pass < 2; pass++ {
+					var tb proto.Block
+					if err := tb.DecodeBlock(proto.NewReader(bytes.NewReader(plain)), rev, at); err != nil {
+						fail("autoresult-decode-error", fmt.Sprintf("rev %d pass %d: %v", rev, pass, err))
+						return
+					}
+					tc, ok := unwrapAuto(at[0].Data)
+					if !ok || at[0].Data.Rows() != len(idx) {
+						fail("autoresult-decode-shape", fmt.Sprintf("rev %d pass %d: %d rows", rev, pass, at[0].Data.Rows()))
+						return
+					}
+					if aw, err := reg.WrapAs(tc, col.T, e.Label); err == nil && hasRow(tc) {
+						if got := rowsCanonAs(aw, fresh); got != nil && !refcol.Equal(anyList(got), anyList(want)) {
+							fail("autoresult-decode-values", fmt.Sprintf("rev %d pass %d: inferred column holds %s, appended %s", rev, pass, refcol.Show(anyList(got)), refcol.Show(anyList(want))))
+							return
+						}
+					}
+				}
+				if ca, ok := at[0].Data.(*proto.ColAuto); ok {
+					if again, err := encodeBlock1(ca, "col", rev, nil); err != nil || !bytes.Equal(again, plain) {
+						fail("autoresult-reencode", fmt.Sprintf("rev %d: a ColAuto holding the decoded column encodes to other bytes (first difference at %d, err %v)", rev, firstDiff(again, plain), err))
+						return
+					}
+				}
 			}
 		}
 	})
